@@ -135,6 +135,9 @@ func (ft *FT) typeSwitch(s *ast.TypeSwitchStmt) {
 					vr = &Var{T: t, Pts: RootSet{}}
 					ft.clauseV[cc] = vr
 				}
+				// the clause variable has the dynamic type of the subject: trusted as a
+				// library interface value only if the subject is (trust.go)
+				vr.IfaceUntrusted = vr.IfaceUntrusted || !v.Trusted
 				refs := RootSet{}
 				if t.hasRef() {
 					refs = v.Pts
